@@ -227,7 +227,7 @@ def run(ctx):
         mine = [t for i, t in enumerate(triples) if i % ctx.nworkers == ctx.worker]
         # pass 1 guarantees >= 40 cases with every triple as the first c2s suite even if the wall-clock
         # budget is hit later; pass 2 spends the rest of the per-worker case count
-        rest = max(0, ctx.scale(0, 6000) // max(1, len(mine)) - 40)
+        rest = max(0, ctx.scale(0, 5000) // max(1, len(mine)) - 40)
         stop = False
         for rnd, per in ((0, 40), (1, rest)):
             for t in mine:
